@@ -18,6 +18,9 @@
 #include "gen/damage.h"
 #include <blocc/bloc_capi.h>
 #include <map>
+#include <fstream>
+#include <sys/stat.h>
+#include <unistd.h>
 #include <set>
 #include <cstring>
 
@@ -115,7 +118,11 @@ struct C11 : Profile {
       "begin\n  begin\n    print 1;\n  end;\nexception\nwhen others then\n  print 2;\nend;",
       "$c = 6;", "$c = $c + 1;", "while b1 loop\n  b1 = false;\nend loop;",
       "if i0 > 1 then\n  i0 = 1;\nelsif i0 < 0 then\n  i0 = 2;\nelse\n  t1 = tab(1, 1);\nend if;",
-      "function g9(z) return integer is\nbegin\n  return z + 1;\nend;", "t0 = tab(2, \"s\");", "t1 = tab(2, tab(1, 0));", "u0 = tup(1.5, 2, \"x\");" };
+      "function g9(z) return integer is\nbegin\n  return z + 1;\nend;", "t0 = tab(2, \"s\");", "t1 = tab(2, tab(1, 0));", "u0 = tup(1.5, 2, \"x\");",
+      // a type-constrained, still unqualified table gets its element type from the text; a constrained scalar is refined
+      "$tq = tab(2, \"x\");", "begin\n  $tq = tab(1, 5);\nend;", "$nq = 7;",
+      // another source compiled in the middle of this one (its own declarations are part of the text)
+      "include \"/var/tmp/blocsim-scratch/c11-include.b\";" };
     // redefinition of each existing function with the same arity
     for (auto& f : ast["funcs"]) {
       std::string d = "function " + f["n"].get<std::string>() + "(";
@@ -139,7 +146,7 @@ struct C11 : Profile {
     GenProgram p = gen_program(g, kn);
     json plan; plan["property"] = "C11";
     std::vector<json> pre; for (auto& s : p.ast["prelude"]) pre.push_back(s); for (auto& s : p.ast["funcs"]) pre.push_back(s);
-    std::string prefix = print_statements(pre) + "$c = 5;\n";
+    std::string prefix = print_statements(pre) + "$c = 5;\n$tq:table;\n$nq:integer;\n";
     // an overload of the first function, so that a redefinition hits a non-last declaration
     if (!p.ast["funcs"].empty()) prefix += "function " + p.ast["funcs"][0]["n"].get<std::string>() + "(a1, a2, a3, a4, a5) return integer is\nbegin\n  return a1;\nend;\n";
     plan["prefix"] = enc(prefix);
@@ -177,6 +184,8 @@ struct C11 : Profile {
     VfHost::get().reset();
     auto fail = [&](const std::string& cls, const std::string& msg) { if (res.vclass.empty()) { res.vclass = cls; res.message = msg; } };
     const std::string prefix = dec(plan.value("prefix", ""));
+    { // the source some texts include (constant content, written once per machine)
+      struct stat sb; if (stat("/var/tmp/blocsim-scratch/c11-include.b", &sb) != 0) { mkdir("/var/tmp/blocsim-scratch", 0777); std::string tmp = "/var/tmp/blocsim-scratch/c11-include.b." + std::to_string((long)getpid()); { std::ofstream f(tmp); f << "function h9(z) return integer is\nbegin\n  return z * 3;\nend;\ninc9 = 1;\n"; } rename(tmp.c_str(), "/var/tmp/blocsim-scratch/c11-include.b"); } }
     Side A, B;
     std::string oa = feed_whole(A, prefix), ob = feed_whole(B, prefix);
     ev.add("prefix:" + oa);
